@@ -82,6 +82,18 @@ func Build(d DatumSpec) interface{} {
 		v = genJSON(r, 0, false)
 	case d.Gen == "jsonnum":
 		v = genJSON(r, 0, true)
+	case d.Gen == "longlist":
+		v = genLongList(r)
+	case d.Gen == "coll:long":
+		n := r.Range(9, 40)
+		l := make([]Inner, n)
+		for i := range l {
+			l[i] = genInner(r, 2)
+			l[i].X = 100 + i
+			l[i].Y = fmt.Sprintf("n%d", i)
+			l[i].Z = append(l[i].Z, 500+i)
+		}
+		v = l
 	case strings.HasPrefix(d.Gen, "tmap:"):
 		v = genTMap(r, d.Gen[5:])
 	case strings.HasPrefix(d.Gen, "coll:"):
@@ -102,6 +114,14 @@ func Build(d DatumSpec) interface{} {
 		Mutate(v, m)
 	}
 	return v
+}
+
+// listLen is mostly small, sometimes well beyond any small-size fast path.
+func listLen(r *plan.Rand, small int) int {
+	if r.Chance(0.12) {
+		return r.Range(9, 34)
+	}
+	return r.Intn(small)
 }
 
 func spareInts(r *plan.Rand, n int) []int {
@@ -140,7 +160,7 @@ func genInner(r *plan.Rand, depth int) Inner {
 	in := Inner{
 		X:      r.Range(-3, 12),
 		Y:      r.Pick(words),
-		Z:      spareInts(r, r.Intn(4)),
+		Z:      spareInts(r, listLen(r, 4)),
 		F:      float64(r.Range(-20, 50)) / 4,
 		B:      r.Chance(0.5),
 		hidden: r.Intn(100),
@@ -160,7 +180,7 @@ func genDoc(r *plan.Rand) *Doc {
 	d := &Doc{
 		Name:   r.Pick(words),
 		Port:   r.Range(0, 9000),
-		Tags:   spareStrings(r, r.Intn(4)),
+		Tags:   spareStrings(r, listLen(r, 4)),
 		Meta:   strMap(r, r.Intn(5)),
 		Nested: genInner(r, 0),
 		F32:    float32(r.Range(-8, 8)) / 2,
@@ -176,7 +196,7 @@ func genDoc(r *plan.Rand) *Doc {
 		p := genInner(r, 0)
 		d.Ptr = &p
 	}
-	n := r.Intn(4)
+	n := listLen(r, 4)
 	d.List = make([]Inner, n, n+1)
 	for i := range d.List {
 		d.List[i] = genInner(r, 1)
@@ -303,7 +323,7 @@ func genJSON(r *plan.Rand, depth int, useNumber bool) interface{} {
 			}
 			return m
 		default:
-			n := r.Range(0, 3)
+			n := listLen(r, 4)
 			l := make([]interface{}, n, n+1)
 			for i := range l {
 				l[i] = val(d + 1)
@@ -320,6 +340,28 @@ func genJSON(r *plan.Rand, depth int, useNumber bool) interface{} {
 		m[r.Pick(keyWords)] = val(depth + 1)
 	}
 	return m
+}
+
+// genLongList: lists well beyond any small-size fast path whose elements are
+// all different, so that skipping or repeating any single element is decisive
+// for some `any`/`all` body over them.
+func genLongList(r *plan.Rand) interface{} {
+	n := r.Range(9, 40)
+	xs := make([]int, n)
+	ys := make([]interface{}, n)
+	ss := make([]string, n)
+	inner := make([]Inner, n)
+	for i := range xs {
+		xs[i] = 100 + i
+		ss[i] = fmt.Sprintf("s%d", i)
+		if i%2 == 0 {
+			ys[i] = 200 + i
+		} else {
+			ys[i] = fmt.Sprintf("y%d", i)
+		}
+		inner[i] = Inner{X: 300 + i, Y: fmt.Sprintf("n%d", i), Z: []int{i}}
+	}
+	return map[string]interface{}{"xs": xs, "ys": ys, "ss": ss, "items": inner, "n": n, "m": map[string]interface{}{"list": ys}}
 }
 
 func genTMap(r *plan.Rand, kind string) interface{} {
@@ -392,7 +434,7 @@ func genTMap(r *plan.Rand, kind string) interface{} {
 }
 
 func genColl(r *plan.Rand, kind string) interface{} {
-	n := r.Range(0, 5)
+	n := listLen(r, 6)
 	switch kind {
 	case "slice":
 		s := make([]Inner, n, n+2)
